@@ -89,13 +89,15 @@ Fixpoint nodupb (l : list target) : bool :=
   | a :: r => negb (existsb (target_eqb a) r) && nodupb r
   end.
 
-(* the item is in the proved fragment: known non-special key, value of the right kind and within the field's type *)
+(* the item is in the proved fragment: known non-special key with a value of the right kind and within the field's
+   type, or a key the parser does not know *)
 Definition item_okb (it : witem) : bool :=
   match item_action it, wi_value it with
   | Some (ANum f), WNum n => wnum_okb n && (wnum_value n <=? nfield_max f)
   | Some (AStr _), WStr s => wstr_okb s
   | Some (ABool _), WNum n => wnum_okb n && (wnum_value n <=? u32_max)
   | Some (ASpeed _), WNum n => wnum_okb n && (wnum_value n <=? u32_max)
+  | None, _ => true                                  (* unknown key: the setting is ignored *)
   | _, _ => false
   end.
 Definition settings_okb (items : list witem) : bool := forallb item_okb items && nodupb (targets items).
